@@ -5,6 +5,7 @@ arbitrary function; `dsha` is double-SHA256 as an arbitrary function.
 -/
 import BV.C20.LemmasSer
 import BV.C20.LemmasPmtRoot
+import BV.C20.LemmasBloom
 import BV.Generated.C20
 namespace BV.C20
 open Spec
@@ -243,6 +244,216 @@ theorem pmt_sizes {α : Type} (hh : α → α → α) (dflt : α) (leaves : List
 
 example : Pmt.extract (fun (a b : Nat) => a + 2 * b + 1) 3 [0x0b] [7, 8, 28] =
     some (Pmt.calcHash (fun (a b : Nat) => a + 2 * b + 1) 0 [7, 8, 9] 2 0, [(1, 8)]) := by decide
+
+/-! ## bloom filters (BIP37)
+`h : UInt32 → Bloom.Bytes → UInt32` is the murmur hash (seed, data): every theorem holds for EVERY such
+function. Size hypotheses: `0 < L` (non-empty bit field) and `L * 8 < 2^32` (Go computes the divisor as
+`uint32(len) << 3`; wire.MaxFilterLoadFilterSize = 36000). Nothing is assumed about the number of hash
+functions (0, > 50 included), the tweak or the flags. -/
+
+/-! ### a bloom filter matches everything inserted into it -/
+
+/-- `Add(d)` then `Matches(d)`: true, for every non-empty field, hash-function count, tweak, flags. -/
+theorem bloom_add_then_matches (h : UInt32 → Bloom.Bytes → UInt32) (f : Bloom.Filter) (d : Bloom.Bytes)
+    (h0 : 0 < f.bits.length) (h1 : f.bits.length * 8 < 2 ^ 32) :
+    (f.add h d).matches h d = true :=
+  Bloom.Filter.add_then_matches_of_ok h f d (Bloom.Filter.panics_false_of_size f h0 h1) h0
+
+/-- `Add` only sets bits: what matches keeps matching after any further `Add` (no hypothesis at all). -/
+theorem bloom_add_monotone (h : UInt32 → Bloom.Bytes → UInt32) (f : Bloom.Filter) (d x : Bloom.Bytes)
+    (hm : f.matches h d = true) : (f.add h x).matches h d = true :=
+  Bloom.Filter.matches_mono h (Bloom.Filter.le_add h f x) d hm
+
+/-- … and after any sequence of further `Add`s. -/
+theorem bloom_matches_after_more_adds (h : UInt32 → Bloom.Bytes → UInt32) (f : Bloom.Filter) (d : Bloom.Bytes)
+    (xs : List Bloom.Bytes) (hm : f.matches h d = true) : (xs.foldl (Bloom.Filter.add h) f).matches h d = true :=
+  Bloom.Filter.matches_mono h (Bloom.Filter.le_foldl_add h xs f) d hm
+
+/-- The property: after ANY insertion sequence `ds` into a filter with a non-empty bit field, every
+    inserted element matches (no false negatives). -/
+theorem bloom_matches_everything_inserted (h : UInt32 → Bloom.Bytes → UInt32) (f : Bloom.Filter)
+    (ds : List Bloom.Bytes) (h0 : 0 < f.bits.length) (h1 : f.bits.length * 8 < 2 ^ 32) :
+    ∀ d ∈ ds, (ds.foldl (Bloom.Filter.add h) f).matches h d = true :=
+  Bloom.Filter.matches_after_adds_of_ok h ds f (Bloom.Filter.panics_false_of_size f h0 h1) h0
+
+/-- `Add` leaves the size of the bit field, the hash-function count, the tweak and the flags alone. -/
+theorem bloom_add_preserves_size (h : UInt32 → Bloom.Bytes → UInt32) (f : Bloom.Filter) (d : Bloom.Bytes) :
+    (f.add h d).bits.length = f.bits.length ∧ (f.add h d).hashFuncs = f.hashFuncs ∧
+    (f.add h d).tweak = f.tweak ∧ (f.add h d).flags = f.flags :=
+  Bloom.Filter.add_preserves h f d
+
+/-- `AddOutPoint` then `MatchesOutPoint` (32-byte hash ‖ LE32 index). -/
+theorem bloom_outpoint_add_then_matches (h : UInt32 → Bloom.Bytes → UInt32) (f : Bloom.Filter)
+    (hash : Bloom.Bytes) (index : UInt32) (h0 : 0 < f.bits.length) (h1 : f.bits.length * 8 < 2 ^ 32) :
+    (f.addOutPoint h hash index).matchesOutPoint h hash index = true :=
+  bloom_add_then_matches h f _ h0 h1
+
+/-- A non-empty field with ZERO hash functions (what `NewFilter(100000000, _, 0.01, _)` yields) matches
+    everything — in particular what was added (the behaviour after fix d309858b; before, nothing matched). -/
+theorem bloom_zero_funcs_matches_all (h : UInt32 → Bloom.Bytes → UInt32) (f : Bloom.Filter) (d : Bloom.Bytes)
+    (hk : f.hashFuncs = 0) (h0 : 0 < f.bits.length) : f.matches h d = true :=
+  Bloom.Filter.zero_funcs_matches h f d hk h0
+
+/-! ### empty / unloaded filters and Go panics (outer `none` of the `?` functions = panic) -/
+
+/-- A loaded filter with an empty bit field (`LoadFilter` normalises its hash-function count to 0):
+    `Matches` is false and `Add` is a no-op — the division by `len*8 = 0` is never reached. -/
+theorem bloom_empty_never_matches (h : UInt32 → Bloom.Bytes → UInt32) (f : Bloom.Filter) (d : Bloom.Bytes)
+    (he : f.bits.length = 0) :
+    Bloom.matches? h (Bloom.load (some f)) d = some false ∧
+    Bloom.add? h (Bloom.load (some f)) d = some (Bloom.load (some f)) :=
+  ⟨Bloom.load_empty_matches h f d he, Bloom.load_empty_add h f d he⟩
+
+/-- The unloaded (nil) filter matches nothing and ignores `Add`. -/
+theorem bloom_unloaded (h : UInt32 → Bloom.Bytes → UInt32) (d : Bloom.Bytes) :
+    Bloom.matches? h (Bloom.load none) d = some false ∧ Bloom.add? h (Bloom.load none) d = some none :=
+  ⟨rfl, rfl⟩
+
+/-- With a non-empty field below 2^29 bytes neither `Add` nor `Matches` panics, and `LoadFilter` keeps
+    the message as it is. -/
+theorem bloom_no_panic (h : UInt32 → Bloom.Bytes → UInt32) (f : Bloom.Filter) (d : Bloom.Bytes)
+    (h0 : 0 < f.bits.length) (h1 : f.bits.length * 8 < 2 ^ 32) :
+    Bloom.load (some f) = some f ∧ Bloom.add? h (some f) d = some (some (f.add h d)) ∧
+    Bloom.matches? h (some f) d = some (f.matches h d) :=
+  ⟨Bloom.load_of_nonempty f h0, Bloom.no_panic_of_size h f d h0 h1⟩
+
+/-- No index-out-of-range: every bit offset `mm % (uint32(len) << 3)` lies inside the field, for every
+    length (even one whose `len*8` wraps) as long as the divisor is non-zero. -/
+theorem bloom_offset_in_range (x : UInt32) (bits : Bloom.Bytes) (hn : Bloom.nbits bits ≠ 0) :
+    ((x % Bloom.nbits bits) >>> 3).toNat < bits.length :=
+  Bloom.in_range x bits hn
+
+/-! ### the model's addressing is BIP37's -/
+
+/-- `Filter[idx>>3] & (1<<(idx&7))` is bit `idx % 8` (LSB first) of byte `idx / 8`. -/
+theorem bloom_bit_numbering (bits : Bloom.Bytes) (idx : UInt32) :
+    Bloom.testBit bits idx = Bloom.Spec.bitAt bits idx.toNat :=
+  Bloom.testBit_eq_bitAt bits idx
+
+/-- `hash(i, data) = murmur(i*0xFBA4C795 + tweak, data) mod (L*8)` when `L*8 < 2^32`. -/
+theorem bloom_hash_is_bip37 (h : UInt32 → Bloom.Bytes → UInt32) (tweak : UInt32) (bits : Bloom.Bytes)
+    (i : Nat) (d : Bloom.Bytes) (h1 : bits.length * 8 < 2 ^ 32) :
+    (Bloom.hashIdx h tweak (Bloom.nbits bits) (UInt32.ofNat i) d).toNat
+      = Bloom.Spec.bitIndex h tweak bits.length i d :=
+  Bloom.hashIdx_eq_bitIndex h tweak bits i d h1
+
+/-- Model = Spec for `Add`: afterwards bit `n` is set iff it was set before or it is one of the
+    `hashFuncs` BIP37 offsets of `d` — `Add` sets exactly the protocol's bits, nothing else. -/
+theorem bloom_add_is_bip37 (h : UInt32 → Bloom.Bytes → UInt32) (f : Bloom.Filter) (d : Bloom.Bytes) (n : Nat)
+    (h1 : f.bits.length * 8 < 2 ^ 32) (hn : n < f.bits.length * 8) :
+    Bloom.Spec.bitAt (f.add h d).bits n =
+      (Bloom.Spec.bitAt f.bits n ||
+        (List.range f.hashFuncs.toNat).any
+          (fun i => decide (Bloom.Spec.bitIndex h f.tweak f.bits.length i d = n))) :=
+  Bloom.add_spec h f d n h1 hn
+
+/-- Model = Spec for `Matches`: a non-empty field all of whose `hashFuncs` BIP37 offsets of `d` are set. -/
+theorem bloom_matches_is_bip37 (h : UInt32 → Bloom.Bytes → UInt32) (f : Bloom.Filter) (d : Bloom.Bytes)
+    (h1 : f.bits.length * 8 < 2 ^ 32) :
+    f.matches h d =
+      ((List.range f.hashFuncs.toNat).all
+          (fun i => Bloom.Spec.bitAt f.bits (Bloom.Spec.bitIndex h f.tweak f.bits.length i d))
+        && decide (0 < f.bits.length)) :=
+  Bloom.matches_spec h f d h1
+
+/-! ### MatchTxAndUpdate -/
+
+/-- A transaction is matched as soon as the filter matches one of its BIP37 data elements: its txid, a
+    data push of an output script, a spent outpoint, a data push of a signature script. -/
+theorem bloom_tx_matched_of_element (h : UInt32 → Bloom.Bytes → UInt32) (f : Bloom.Filter) (tx : Bloom.Tx)
+    (x : Bloom.Bytes) (hx : x ∈ tx.elements) (hm : f.matches h x = true) :
+    (f.matchTxAndUpdate h tx).1 = true :=
+  Bloom.Filter.matchTx_of_element h f tx x hx hm
+
+/-- … hence a transaction containing anything that was inserted (by any insertion sequence) is matched. -/
+theorem bloom_tx_matched_if_inserted (h : UInt32 → Bloom.Bytes → UInt32) (f : Bloom.Filter) (tx : Bloom.Tx)
+    (ds : List Bloom.Bytes) (x : Bloom.Bytes) (hd : x ∈ ds) (hx : x ∈ tx.elements)
+    (h0 : 0 < f.bits.length) (h1 : f.bits.length * 8 < 2 ^ 32) :
+    ((ds.foldl (Bloom.Filter.add h) f).matchTxAndUpdate h tx).1 = true :=
+  bloom_tx_matched_of_element h _ tx x hx (bloom_matches_everything_inserted h f ds h0 h1 x hd)
+
+/-- `MatchTxAndUpdate` only adds: shape and parameters are kept, whatever matched still matches. -/
+theorem bloom_tx_update_monotone (h : UInt32 → Bloom.Bytes → UInt32) (f : Bloom.Filter) (tx : Bloom.Tx)
+    (d : Bloom.Bytes) (hm : f.matches h d = true) :
+    ((f.matchTxAndUpdate h tx).2.matches h d = true) ∧
+    (f.matchTxAndUpdate h tx).2.bits.length = f.bits.length ∧
+    (f.matchTxAndUpdate h tx).2.hashFuncs = f.hashFuncs ∧ (f.matchTxAndUpdate h tx).2.tweak = f.tweak ∧
+    (f.matchTxAndUpdate h tx).2.flags = f.flags :=
+  have l := Bloom.Filter.matchTx_le h f tx
+  ⟨Bloom.Filter.matches_mono h l d hm, l.len, l.k, l.tweak, l.flags⟩
+
+/-- BloomUpdateAll: the outpoint (txid, k) of every output one of whose data pushes matches the filter
+    matches afterwards. -/
+theorem bloom_update_all (h : UInt32 → Bloom.Bytes → UInt32) (f : Bloom.Filter) (tx : Bloom.Tx)
+    (h0 : 0 < f.bits.length) (h1 : f.bits.length * 8 < 2 ^ 32) (hf : f.flags = Bloom.Spec.UPDATE_ALL)
+    (k : Nat) (o : Bloom.TxOut) (hk : tx.outs[k]? = some o) (hm : Bloom.Filter.anyPush h f o.pushes = true) :
+    (f.matchTxAndUpdate h tx).2.matchesOutPoint h tx.txid (UInt32.ofNat k) = true := by
+  rw [Bloom.Filter.matchTx_snd]
+  have := Bloom.Filter.outsLoop_updates h tx.txid tx.outs 0 (f.matches h tx.txid) f
+    (Bloom.Filter.panics_false_of_size f h0 h1) h0 k o hk hm (by unfold Bloom.Filter.shouldAdd; simp [hf])
+  simpa using this
+
+/-- BloomUpdateP2PubkeyOnly: the same for outputs whose script is pay-to-pubkey or bare multisig … -/
+theorem bloom_update_p2pubkey_only (h : UInt32 → Bloom.Bytes → UInt32) (f : Bloom.Filter) (tx : Bloom.Tx)
+    (h0 : 0 < f.bits.length) (h1 : f.bits.length * 8 < 2 ^ 32) (hf : f.flags = Bloom.Spec.UPDATE_P2PUBKEY_ONLY)
+    (k : Nat) (o : Bloom.TxOut) (hk : tx.outs[k]? = some o) (hm : Bloom.Filter.anyPush h f o.pushes = true)
+    (hpk : o.isPk = true) :
+    (f.matchTxAndUpdate h tx).2.matchesOutPoint h tx.txid (UInt32.ofNat k) = true := by
+  rw [Bloom.Filter.matchTx_snd]
+  have := Bloom.Filter.outsLoop_updates h tx.txid tx.outs 0 (f.matches h tx.txid) f
+    (Bloom.Filter.panics_false_of_size f h0 h1) h0 k o hk hm
+    (by unfold Bloom.Filter.shouldAdd; rw [hf, hpk]; decide)
+  simpa using this
+
+/-- … and only for those: without such an output the filter is left exactly as it was. -/
+theorem bloom_update_p2pubkey_only_others (h : UInt32 → Bloom.Bytes → UInt32) (f : Bloom.Filter) (tx : Bloom.Tx)
+    (hf : f.flags = Bloom.Spec.UPDATE_P2PUBKEY_ONLY) (hpk : ∀ o ∈ tx.outs, o.isPk = false) :
+    (f.matchTxAndUpdate h tx).2 = f := by
+  rw [Bloom.Filter.matchTx_snd]
+  exact Bloom.Filter.outsLoop_unchanged h tx.txid tx.outs 0 _ f
+    (fun o ho => by unfold Bloom.Filter.shouldAdd; rw [hf, hpk o ho]; decide)
+
+/-- BloomUpdateNone (and every flag value other than 1 and 2): the filter is never changed. -/
+theorem bloom_update_none (h : UInt32 → Bloom.Bytes → UInt32) (f : Bloom.Filter) (tx : Bloom.Tx)
+    (hf1 : f.flags ≠ Bloom.Spec.UPDATE_ALL) (hf2 : f.flags ≠ Bloom.Spec.UPDATE_P2PUBKEY_ONLY) :
+    (f.matchTxAndUpdate h tx).2 = f := by
+  rw [Bloom.Filter.matchTx_snd]
+  exact Bloom.Filter.outsLoop_unchanged h tx.txid tx.outs 0 _ f
+    (fun o _ => by unfold Bloom.Filter.shouldAdd; simp [hf1, hf2])
+
+/-! ### non-vacuity: the hypotheses are satisfiable (boundary sizes; a toy hash for the tx theorems) -/
+
+/-- a 1-byte field with zero hash functions (the trigger of the fixed finding), 36000 bytes with 50 -/
+example : ∃ f : Bloom.Filter, 0 < f.bits.length ∧ f.bits.length * 8 < 2 ^ 32 ∧ f.hashFuncs = 0 :=
+  ⟨⟨[0], 0, 0, 0⟩, by decide⟩
+
+example : ∃ f : Bloom.Filter, 0 < f.bits.length ∧ f.bits.length * 8 < 2 ^ 32 ∧ f.hashFuncs = 50 ∧
+    f.bits.length = 36000 := by
+  refine ⟨⟨List.replicate 36000 0, 50, 0xffffffff, 1⟩, ?_⟩
+  simp only [List.length_replicate]
+  decide
+
+/-- a concrete instance: hash = sum of seed and first byte; UpdateAll inserts the matched outpoint -/
+example :
+    let h : UInt32 → Bloom.Bytes → UInt32 := fun s d => s + (d.headD 0).toUInt32
+    let f : Bloom.Filter := ⟨[0, 0], 2, 5, Bloom.Spec.UPDATE_ALL⟩
+    let tx : Bloom.Tx := ⟨[7], [⟨some [[9]], false⟩], []⟩
+    (f.matchTxAndUpdate h tx).1 = false ∧ ((f.add h [9]).matchTxAndUpdate h tx).1 = true ∧
+    ((f.add h [9]).matchTxAndUpdate h tx).2.matchesOutPoint h [7] 0 = true ∧ [9] ∈ tx.elements := by
+  decide
+
+/-! ### pinning of regenerated facts (T2) -/
+
+theorem pin_bloom_limits :
+    Generated.C20.maxFilterLoadFilterSize = (Bloom.Spec.MAX_FILTER_SIZE : Int) ∧
+    Generated.C20.maxFilterLoadHashFuncs = (Bloom.Spec.MAX_HASH_FUNCS : Int) ∧
+    Generated.C20.bloomUpdateNone = (Bloom.Spec.UPDATE_NONE.toNat : Int) ∧
+    Generated.C20.bloomUpdateAll = (Bloom.Spec.UPDATE_ALL.toNat : Int) ∧
+    Generated.C20.bloomUpdateP2PubkeyOnly = (Bloom.Spec.UPDATE_P2PUBKEY_ONLY.toNat : Int) ∧
+    Generated.C20.outPointSize = 36 ∧
+    (Bloom.Spec.outPointBytes (List.replicate 32 0) 0).length = 36 ∧
+    Bloom.Spec.MAX_FILTER_SIZE * 8 < 2 ^ 32 := by decide
+
 
 /-! ### pinning of regenerated facts (T2) -/
 
